@@ -108,6 +108,7 @@ BASES = [
     base("http", "example.com", segs=["a\u00a0b", "c\u3000"], items=[("k", "v\u2003w")]),     # raw unicode whitespace inside components (escaped in the canonical form)
     base("http", "example.com", segs=["go"], items=[("l", "en"), ("url", "http://target.com/page")]),      # the redirect parameter is not the first redirect-like item
     base("http", "example.com", segs=["login"], items=[("next", "/home")]),                                # a relative redirect target
+    base("http", "example.com", segs=["a", "x%C2%A0"]),                                    # an escaped no-break space that must stay escaped: raw, it would be stripped
     base("http", "co.uk", segs=["about"]),                                             # a host that is itself a public suffix
     base("http", "example.com", segs=["p"], items=[("tag", "b"), ("tag", "a"), ("tag", None)]),     # one key, several values: the order of items is irrelevant
     base("http", "example.com", user="z\u200bw", segs=["a\u200bb", "\u00ad"], items=[("k", "\ufeffv")], frag="x\u2060y"),      # invisible (format) characters are not control characters
